@@ -17,7 +17,16 @@ RULE = ("Generated test programs whose stages attach details under arbitrary nam
         "snapshots every content's bytes inside the outcome call. Oracle: name-agnostic containment - every expected "
         "item (identified by a marker in its bytes) maps to a distinct entry of the delivered details dict; user "
         "details sit under exactly their own name with the bytes their source yields at reporting time; handler "
-        "calls are counted and must precede the outcome. Non-trivial: a name collision, or >= 2 tracebacks, or "
+        "calls are counted and must precede the outcome. Added after the third audit: a third of the user / fixture "
+        "details are 'bare' (delivered bytes are exactly the drawn chunks: truly empty, no chunk at all, leading empty "
+        "chunk, 5 kB; fixture details are then identified by a content-type parameter, which must survive the gathering), "
+        "mismatch details may be binary or lazily evaluated (bytes at reporting time), MultipleExceptions constituents "
+        "may be (type, value, None) triples, interrupts may strike inside expectFailure / assertRaises, one result in eight "
+        "asks for locals in tracebacks (tb_locals); a traceback "
+        "detail must show the raise site (a frame in vp/programs.py) unless the exc_info had no traceback object; "
+        "no generated detail is identified by its name or MIME subtype any more. Seven exhaustive grids (payload x source x "
+        "outcome, lazy mismatch details, 10..21 tracebacks, tb-None constituents, 10+ renamings / repeated registrations / re-raised MultipleExceptions, interrupts inside helpers) make these "
+        "catches independent of the seed. Non-trivial: a name collision, or >= 2 tracebacks, or "
         "fixture + mismatch + traceback details together; distinct = distinct canonical program.")
 ASSUMPTIONS = [
     "a user addDetail(n) executed after a generated detail took the name n (or n's base name) is plain replacement: "
@@ -25,12 +34,105 @@ ASSUMPTIONS = [
     "details of a nested fixture (passed to Fixture.useFixture, not TestCase.useFixture) are optional",
     "the forced failure of expectThat/force_failure and fixtures' SetupError are not 'raised by user code': their "
     "tracebacks and handler calls are optional",
+    "a traceback detail is rendered in CPython's traceback layout: frame / source lines are indented by two spaces "
+    "and the exception's own summary (type: message) follows the last of them; generated messages never start a "
+    "line with two spaces (the locals that a tb_locals result asks for are indented by four)",
+    "a traceback detail of an exception raised by generated code names the file of the raise site (vp/programs.py); "
+    "nothing is demanded of its detail name or content type",
+    "the content type (type, subtype, parameters) belongs to a detail: a gathered fixture detail or a mismatch "
+    "detail that arrives with other parameters than it was attached with is not that detail",
+    "no per-run actions are drawn (P.programs(per_run=...) stays off): the re-run clause compares the handler-call "
+    "counts of two runs of the same instance, which is only meaningful when both runs raise the same exceptions",
+    "the detail name 'reason' is used by no source (user, fixture, mismatch): a fixture / mismatch detail called "
+    "'reason' is overwritten by the skip / expectFailure reason on the current tree (third audit B1, not filed here)",
+    "@unittest.expectedFailure bodies raise at most one plain exception (a MultipleExceptions under the decorator is "
+    "reported as one traceback quoting the exc_info tuples: audit-2 L1, not generated)",
 ]
 
-PROG = P.programs(multi=True, details=True, fixture=True, expect=True, onexc=True, cleanup_depth=2, p_raise=5, nonexc=True, texts=True, decor=True)
+BASE = P.programs(multi=True, details=True, fixture=True, expect=True, onexc=True, cleanup_depth=2, p_raise=5, nonexc=True, texts=True, decor=True)
+BIG = b"z" * 5000
+# payloads delivered exactly as drawn (no marker chunk): truly empty, zero chunks, leading empty chunk, non-UTF-8, large
+BARE_CHUNKS = st.one_of(st.sampled_from([[], [b""], [b"", b""], [b"", b"a"], [BIG, b"\xff"]]),
+                        st.lists(st.sampled_from([b"", b"a", b"\xff\x00", "\u00e9".encode("utf8"), b"two\nlines", BIG]), max_size=3))
+THIRD = st.integers(0, 2)
+QUARTER = st.integers(0, 3)
+NO_TB_KINDS = ("fail", "assertion_sub", "error", "error_key", "error_falsy", "kbi", "sysexit")
+
+
+def _fixtures(prog):
+    for a in _walk(prog):
+        if a["a"] == "fixture":
+            f = a["spec"]
+            while f is not None:
+                yield f
+                f = f["nested"]
+
+
+def _multi_subs(subs):
+    for s in subs:
+        if s["kind"] == "multi":
+            yield from _multi_subs(s["sub"])
+        else:
+            yield s
+
+
+@st.composite
+def _programs(draw):
+    """A program of vp.programs plus the dimensions only this property looks at (keys the builder honours and
+    every other check leaves unset): 'bare' payloads of user / fixture details, binary and lazily evaluated
+    mismatch details ('mpay'), MultipleExceptions constituents whose traceback object is None ('notb')."""
+    prog = draw(BASE)
+    if P.Model(prog).skipped_by_decorator:
+        return prog
+    for a in list(_walk(prog)):
+        if a["a"] == "detail" and draw(THIRD) == 0:
+            a["bare"] = True
+            if draw(st.booleans()):
+                a["chunks"] = draw(BARE_CHUNKS)
+        elif a["a"] in ("expect", "assert") and not a["ok"]:
+            pay = {}
+            for n in a["dnames"]:
+                if draw(THIRD) == 0:
+                    if prog["cells"] and draw(st.booleans()):
+                        pay[n] = {"cell": draw(st.integers(0, prog["cells"] - 1))}
+                    else:
+                        pay[n] = {"chunks": draw(BARE_CHUNKS)}
+            if pay:
+                a["mpay"] = pay
+        elif a["a"] == "raise" and a["kind"] in ("kbi", "sysexit") and draw(THIRD) == 0:
+            # the interrupt strikes inside a callable handed to expectFailure / assertRaises
+            a["kind"] = draw(st.sampled_from(["xf_kbi", "ar_kbi"])) if a["kind"] == "kbi" else "ar_sysexit"
+        elif a["a"] == "raise" and a["kind"] == "multi":
+            for s in _multi_subs(a["sub"]):
+                if s["kind"] in NO_TB_KINDS and draw(QUARTER) == 0:
+                    s["notb"] = True
+    if draw(st.integers(0, 7)) == 0:
+        prog["tb_locals"] = True        # the result wants the locals of every frame in its tracebacks
+    for f in _fixtures(prog):
+        if f["details"] and draw(THIRD) == 0:
+            f["bare"] = True
+            for n in f["details"]:
+                if draw(st.booleans()):
+                    f["details"][n] = draw(BARE_CHUNKS)
+    return prog
+
+
+PROG = _programs()
 
 
 def run_case(prog):
+    """(a result that asks for locals in tracebacks - result.tb_locals - is the harness recorder with that attribute set)"""
+    if not prog.get("tb_locals"):
+        return _run_case(prog)
+    from vp import results
+    results.Ext.tb_locals = True
+    try:
+        return _run_case(prog)
+    finally:
+        del results.Ext.tb_locals
+
+
+def _run_case(prog):
     vs = []
     model = P.Model(prog).run()
     obs = R.run_program(prog, "ext")
@@ -55,21 +157,30 @@ def run_case(prog):
         last[d["name"]] = d
     used = set()
     collisions = 0
+    acts = {a["i"]: a for a in _walk(prog)}
     for name, d in last.items():
-        want = b"D%d/" % d["i"] + (model.cells[d["cell"]] if d["cell"] is not None else b"".join(d["chunks"]))
+        bare = acts[d["i"]].get("bare")
+        want = (b"" if bare else b"D%d/" % d["i"]) + (model.cells[d["cell"]] if d["cell"] is not None else b"".join(acts[d["i"]]["chunks"]))
         got = delivered.get(name)
         if got is None:
             vs.append(V("user-detail", "dropped", "detail %r added by the test is missing; delivered names %r" % (name, sorted(delivered))))
         elif got[1] != want:
-            kind = "stale-bytes" if d["cell"] is not None and got[1].startswith(b"D%d/" % d["i"]) else "overwritten"
+            kind = "stale-bytes" if d["cell"] is not None and (bare or got[1].startswith(b"D%d/" % d["i"])) else "overwritten"
             vs.append(V("user-detail", kind, "detail %r delivered as %r, its source yields %r at reporting time" % (name, got[1], want)))
         used.add(name)
     # B. generated items -> distinct entries
     items = []
     for g in model.gen_items:
-        excused = any(u["t"] >= g["t"] and (u["name"] == g["base"] or u["name"].startswith(g["base"] + "-")) for u in model.details_added)
+        # (gathered fixture details take t = len(log) without logging themselves: a user detail with the same t came first)
+        t0 = g["t"] + 1 if g["type"] == "fixture-detail" else g["t"]
+        excused = any(u["t"] >= t0 and (u["name"] == g["base"] or u["name"].startswith(g["base"] + "-")) for u in model.details_added)
         items.append((g, excused))
     names = [n for n in delivered if n not in used]
+    fixtures = {f["i"]: f for f in _fixtures(prog)}
+    no_tb = {s["i"] for a in acts.values() if a["a"] == "raise" and a["kind"] == "multi" for s in _multi_subs(a["sub"]) if s.get("notb")}
+
+    def params(ct):
+        return dict(getattr(ct, "parameters", None) or {})
 
     def accepts(g, n):
         ct, data = delivered[n]
@@ -81,15 +192,26 @@ def run_case(prog):
             lines = [ln for ln in text.split("\n") if ln.strip()]
             k = max([i for i, ln in enumerate(lines) if ln.startswith("  ")] or [-1])
             last = ["\n".join(lines[k + 1:])]
-            return ct.subtype == "x-traceback" and ("MARK-%d-" % g["marker"]) in last[0] and "MultipleExceptions" not in last[0]
+            # ... and it is a traceback: it shows where the exception was raised (every generated raise site is in
+            # vp/programs.py), unless the exc_info handed over had no traceback object to show
+            shown = g["marker"] in no_tb or "programs.py" in text
+            return shown and ("MARK-%d-" % g["marker"]) in last[0] and "MultipleExceptions" not in last[0]
         if g["type"] == "traceback-xfail":
-            return ct.subtype == "x-traceback" and "MismatchError" in text and "1 != 2" in text
+            return "MismatchError" in text and "1 != 2" in text
         if g["type"] == "mismatch-detail":
-            return text == g["marker"]
+            i, _, dn = g["marker"][1:].partition("/")
+            pay = (acts[int(i)].get("mpay") or {}).get(dn)
+            if pay is None:
+                return text == g["marker"]
+            want = model.cells.get(pay["cell"], b"") if pay.get("cell") is not None else b"".join(pay["chunks"])
+            return data == want and (ct.type, ct.subtype) == ("application", "octet-stream") and params(ct) == {"id": g["marker"]}
         if g["type"] == "fixture-detail":
+            f = fixtures[int(g["marker"][2:].split("/")[0])]
+            if f.get("bare"):
+                return data == g["payload"] and (ct.type, ct.subtype) == ("application", "octet-stream") and params(ct) == {"id": g["marker"]}
             return data == g["marker"].encode("utf8") + g["payload"] and (ct.type, ct.subtype) == ("application", "octet-stream")
         if g["type"] == "failed-expectation":
-            return "MismatchError" in text and ("MARK-%d-" % g["marker"]) in text and n.startswith("Failed expectation")
+            return "MismatchError" in text and ("MARK-%d-" % g["marker"]) in text
         return False
     required = [g for g, ex in items if not ex]
     if required:
@@ -152,7 +274,7 @@ def run_case(prog):
         if any(c[2] is not None and c[2] > out_index for c in calls):
             vs.append(V("onException", "after-outcome", "a handler was called after the outcome had been reported"))
         # ... and with the exceptions that were raised (those whose message carries a marker)
-        plain = P.FAILURE_KINDS + P.ERROR_KINDS + P.SKIP_KINDS + P.NONEXC_KINDS
+        plain = P.FAILURE_KINDS + P.ERROR_KINDS + P.SKIP_KINDS + P.NONEXC_KINDS + ("xf_kbi", "ar_kbi", "ar_sysexit")
         universe = {r["i"] for r in model.raised if r["kind"] in plain and r["kind"] not in P.UNMARKED and r["i"] is not None}
         want_m = sorted(r["i"] for r in user_raises if r["handlers"] > j and r["i"] in universe)
         got_m = sorted(c[1] for c in calls if isinstance(c[1], int) and c[1] in universe)
@@ -187,6 +309,177 @@ def _walk(prog):
         yield from rec(prog[s])
 
 
+def _prog(**stages):
+    prog = {"decor": "none", "setUp_pre": [], "setUp_post": [], "body": [], "tearDown_pre": [], "tearDown_post": [],
+            "handlers": [], "handlers_when": "init", "cells": 0, "outside_handler": False}
+    prog.update(stages)
+    return prog
+
+
+def _ending(kind, ids):
+    return [] if kind is None else [{"a": "raise", "i": next(ids), "kind": kind, "text": ""}]
+
+
+def _enum_payloads():
+    """Every source of a detail x payloads that are empty / have no chunk at all / start with an empty chunk / are
+    large x every outcome, with and without an earlier user detail of the same name (so that the empty detail is
+    also renamed)."""
+    import itertools
+    payloads = [[], [b""], [b"", b"x"], [BIG, b"\xff"]]
+    endings = [None, "fail", "error", "skip", "xfail", "uxsuccess"]
+    for src, chunks, end, collide in itertools.product(
+            ["user", "user_lazy", "fixture", "fixture_live", "fixture_setup_fails", "fixture_nested_fails", "expect", "assert"],
+            payloads, endings, [False, True]):
+        if src in ("assert", "fixture_setup_fails", "fixture_nested_fails") and end not in (None, "error"):
+            continue            # the stage ends with the mismatch / the failing setUp
+        ids = itertools.count(1)
+        body = [{"a": "onexc", "i": next(ids)}]
+        if collide:
+            body.append({"a": "detail", "i": next(ids), "name": "log", "chunks": [b"first"], "cell": None})
+        cells = 0
+        if src == "user":
+            body.append({"a": "detail", "i": next(ids), "name": "log-1" if collide else "log", "chunks": chunks, "cell": None, "bare": True})
+        elif src == "user_lazy":
+            cells = 1
+            body.append({"a": "detail", "i": next(ids), "name": "log-1" if collide else "log", "chunks": [b"early"], "cell": 0, "bare": True})
+            body.append({"a": "mutate", "i": next(ids), "cell": 0, "data": b"".join(chunks)})
+        elif src.startswith("fixture"):
+            f = {"i": next(ids), "setup_fail": src == "fixture_setup_fails", "cleanup_fail": False, "details": {"log": chunks, "fx": [b"y"]},
+                 "nested": None, "details_fail": False, "live": src == "fixture_live", "bare": True}
+            if src == "fixture_nested_fails":
+                f["nested"] = {"i": next(ids), "setup_fail": True, "cleanup_fail": False, "details": {}, "nested": None,
+                               "details_fail": False, "live": False}
+            body.append({"a": "fixture", "i": next(ids), "spec": f})
+        else:
+            body.append({"a": src, "i": next(ids), "ok": False, "dnames": ["log", "m"], "message": "", "verbose": False,
+                         "mpay": {"log": {"chunks": chunks}}})
+        if src != "assert" and not src.endswith("fails"):
+            body += _ending(end, ids)
+            yield _prog(body=body, cells=cells)
+        else:
+            yield _prog(body=body, cells=cells, tearDown_post=_ending(end, ids))
+
+
+def _enum_lazy_mismatch():
+    """A mismatch detail whose bytes change after assertThat / expectThat returned: what is delivered is what the
+    content yields at reporting time."""
+    import itertools
+    for how, where, data in itertools.product(["expect", "assert"], ["body", "tearDown_pre", "cleanup"], [b"changed", b"", b"\xfe" + BIG]):
+        if how == "assert" and where == "body":
+            continue
+        ids = itertools.count(1)
+        mutate = {"a": "mutate", "i": next(ids), "cell": 0, "data": data}
+        pre = [{"a": "detail", "i": next(ids), "name": "fx", "chunks": [b"early"], "cell": 0}]
+        if where == "cleanup":
+            pre.append({"a": "cleanup", "i": next(ids), "args": False, "body": [mutate]})
+        body = [{"a": how, "i": next(ids), "ok": False, "dnames": ["m", "fx"], "message": "", "verbose": True, "mpay": {"m": {"cell": 0}, "fx": {"cell": 0}}}]
+        if where == "body":
+            body.append(mutate)
+        yield _prog(setUp_post=pre, body=body, tearDown_pre=[mutate] if where == "tearDown_pre" else [], cells=1)
+
+
+def _enum_many_tracebacks():
+    """10 and more tracebacks in one run (suffixes reach two digits), as constituents of one MultipleExceptions or
+    from as many raising cleanups, next to user details that occupy some of the generated names."""
+    import itertools
+    for n, shape, taken in itertools.product([10, 11, 13, 21], ["multi", "cleanups", "multi_in_cleanup"],
+                                             [None, "traceback-1", "traceback-10", "traceback-2", "locals"]):
+        tb_locals, taken = taken == "locals", (None if taken == "locals" else taken)
+        ids = itertools.count(1)
+        pre = [{"a": "onexc", "i": next(ids)}]
+        if taken:
+            pre.append({"a": "detail", "i": next(ids), "name": taken, "chunks": [b"u"], "cell": None})
+        kinds = ["error", "fail", "error_key", "assertion_sub", "error_falsy"]
+        if shape == "cleanups":
+            body = [{"a": "cleanup", "i": next(ids), "args": False, "body": [{"a": "raise", "i": next(ids), "kind": kinds[k % 5], "text": ""}]}
+                    for k in range(n)]
+        else:
+            m = {"a": "raise", "i": next(ids), "kind": "multi", "sub": [{"kind": kinds[k % 5], "i": next(ids)} for k in range(n)]}
+            body = [m] if shape == "multi" else [{"a": "cleanup", "i": next(ids), "args": True, "body": [m]}]
+        yield _prog(setUp_post=pre, body=body, tb_locals=tb_locals)
+
+
+def _enum_no_traceback_object():
+    """MultipleExceptions whose constituents are (type, value, None) triples - every subset of two / three
+    constituents, raised by every stage: each is still reported (one traceback detail each, handlers called)."""
+    import itertools
+    kinds = ["error", "fail", "error_key"]
+    for k in (1, 2, 3):
+        for mask in itertools.product([False, True], repeat=k):
+            if not any(mask):
+                continue
+            for stage in ("setUp_post", "body", "tearDown_post", "cleanup"):
+                ids = itertools.count(1)
+                pre = [{"a": "onexc", "i": next(ids)}]
+                m = {"a": "raise", "i": next(ids), "kind": "multi",
+                     "sub": [dict({"kind": kinds[j], "i": next(ids)}, **({"notb": True} if mask[j] else {})) for j in range(k)]}
+                if stage == "cleanup":
+                    yield _prog(setUp_pre=pre, body=[{"a": "cleanup", "i": next(ids), "args": False, "body": [m]}])
+                else:
+                    yield _prog(setUp_pre=pre, **{stage: [m]})
+
+
+def _enum_repeats():
+    """(a) ten and more renamings of one name before a fixture detail of that name is gathered (on success and
+    from a failing setUp); (b) the very same cleanup - with a failing expectThat inside - registered twice: two
+    equal mismatch details under one name are two details; (c) the very same MultipleExceptions instance raised
+    again by a later stage: its constituents are reported again."""
+    import itertools
+    for n, fails, bare in itertools.product([10, 12], [False, True], [False, True]):
+        ids = itertools.count(1)
+        f = {"i": next(ids), "setup_fail": fails, "cleanup_fail": False, "details": {"log": [b"x"], "Failed expectation": [b"y"]},
+             "nested": None, "details_fail": False, "live": False, "bare": bare}
+        fx = {"a": "fixture", "i": next(ids), "spec": f}
+        expects = [{"a": "expect", "i": next(ids), "ok": False, "dnames": ["log"], "message": "", "verbose": False} for _ in range(n)]
+        if fails:
+            yield _prog(body=expects + [fx])
+        else:
+            yield _prog(setUp_post=[fx], body=expects)
+    for verbose, pay in itertools.product([False, True], [None, {"m": {"chunks": [b"same"]}}, {"m": {"chunks": []}}]):
+        ids = itertools.count(1)
+        e = {"a": "expect", "i": next(ids), "ok": False, "dnames": ["m"], "message": "", "verbose": verbose}
+        if pay:
+            e["mpay"] = pay
+        c = {"a": "cleanup", "i": next(ids), "args": True, "body": [e]}
+        yield _prog(body=[c, {"a": "cleanup_dup", "i": next(ids), "ref": c["i"]}, {"a": "cleanup_dup", "i": next(ids), "ref": c["i"]}])
+    for where, nsub in itertools.product(["tearDown_post", "cleanup", "both"], [1, 2]):
+        ids = itertools.count(1)
+        pre = [{"a": "onexc", "i": next(ids)}]
+        m = {"a": "raise", "i": next(ids), "kind": "multi", "sub": [{"kind": ["error", "fail"][k], "i": next(ids)} for k in range(nsub)]}
+        again = {"a": "raise", "i": next(ids), "kind": "again", "ref": m["i"]}
+        again2 = {"a": "raise", "i": next(ids), "kind": "again", "ref": m["i"]}
+        if where in ("cleanup", "both"):
+            pre.append({"a": "cleanup", "i": next(ids), "args": False, "body": [again]})
+        yield _prog(setUp_pre=pre, body=[m], tearDown_post=[again2] if where in ("tearDown_post", "both") else [])
+
+
+def _enum_interrupt_in_helper():
+    """KeyboardInterrupt / SystemExit raised by the callable handed to expectFailure / assertRaises, in every stage:
+    the traceback and the handlers are those of the interrupt itself."""
+    import itertools
+    for kind, stage, text in itertools.product(["xf_kbi", "ar_kbi", "ar_sysexit"], ["setUp_post", "body", "tearDown_post", "cleanup"], ["", " two\nlines"]):
+        ids = itertools.count(1)
+        pre = [{"a": "onexc", "i": next(ids)},
+               {"a": "cleanup", "i": next(ids), "args": False, "body": [{"a": "raise", "i": next(ids), "kind": "error", "text": ""}]}]
+        r = {"a": "raise", "i": next(ids), "kind": kind, "text": text}
+        if stage == "cleanup":
+            yield _prog(setUp_pre=pre, body=[{"a": "cleanup", "i": next(ids), "args": False, "body": [r]}])
+        else:
+            yield _prog(setUp_pre=pre, **{stage: [r]})
+
+
 def subchecks(tier):
     q = tier == "quick"
-    return [Sub("detail_programs", run_case, PROG, 2500 if q else 120000)]
+    return [Sub("detail_programs", run_case, PROG, 2500 if q else 120000),
+            Sub("payload_grid", run_case, enum=_enum_payloads, enum_complete=True,
+                note="source of the detail x empty / zero-chunk / leading-empty-chunk / large payload x outcome x renamed or not"),
+            Sub("lazy_mismatch_grid", run_case, enum=_enum_lazy_mismatch, enum_complete=True,
+                note="mismatch details evaluated at reporting time"),
+            Sub("many_tracebacks_grid", run_case, enum=_enum_many_tracebacks, enum_complete=True,
+                note="10..21 tracebacks in one run x shape x user detail on a generated name"),
+            Sub("no_traceback_object_grid", run_case, enum=_enum_no_traceback_object, enum_complete=True,
+                note="MultipleExceptions constituents with tb None"),
+            Sub("repeats_grid", run_case, enum=_enum_repeats, enum_complete=True,
+                note="10+ renamings before a gather; one cleanup registered twice; one MultipleExceptions raised again"),
+            Sub("interrupt_in_helper_grid", run_case, enum=_enum_interrupt_in_helper, enum_complete=True,
+                note="interrupt kind x stage")]
